@@ -6,7 +6,7 @@ from symx.engine import smax
 ID = "C15"
 MODULES = ["hta.trace_analysis"]
 MUST_NOT_RAISE = True
-BUDGET_S = {"quick": 300, "thorough": 2400}
+BUDGET_S = {"quick": 300, "thorough": 1200}
 HOST = {"L": "cudaLaunchKernel", "X": "cudaLaunchKernelExC", "Y": "cudaMemcpyAsync", "Z": "cudaMemsetAsync",
         "W": "cudaStreamSynchronize"}
 KERNEL_LAUNCH = {"L", "X"}
